@@ -57,7 +57,9 @@ def active():
 
 
 def is_sym(x):
-    return isinstance(x, (SymInt, SymBool, SymFloat, SymBytesBase, SymFmt, SymRatio))
+    if isinstance(x, (SymInt, SymBool, SymFloat, SymBytesBase, SymFmt, SymRatio)):
+        return True
+    return type(x).__name__ == "SymReal"
 
 
 def bv(x, w=W):
@@ -1559,6 +1561,10 @@ def eval_any(m, x):
         return eval_float(m, x)
     if isinstance(x, SymRatio):
         return eval_int(m, x.n) / x.c
+    if type(x).__name__ == "SymReal":
+        v = m.eval(x.t, model_completion=True)
+        f = v.as_fraction()
+        return float(f)
     if isinstance(x, SymBytesBase):
         return eval_bytes(m, x)
     if isinstance(x, SymFmt):
